@@ -187,6 +187,7 @@ def run(ctx):
     d3_setters(ctx)
     d4_overrides(ctx)
     d5_defaults(ctx)
+    d6_requested_mode(ctx)
 
 
 # ---------------------------------------------------------------------------
@@ -359,18 +360,76 @@ def d3_setters(ctx):
                     if d:
                         assigned[d] = st.value
         v = assigned.get('self._accessmode')
-        ctx.decide(v is not None and valparam in derived(setter.node, v), 'R-SIB', 'D3', setter, v,
-                   'own-mode', f'{cname}.accessmode setter stores the new mode',
-                   detail='setter does not assign self._accessmode from its argument')
+        ctx.decide(v is not None and valparam in derived(setter.node, v) and
+                   _on_all_paths(setter, 'self._accessmode'), 'R-SIB', 'D3', setter, v,
+                   'own-mode', f'{cname}.accessmode setter stores the new mode on every path',
+                   detail='setter does not assign self._accessmode from its argument on every path')
         n += 1
         for a, _, _, sub in subs:
             n += 1
             v = assigned.get(f'self.{a}.accessmode') or assigned.get(f'self.{a}._accessmode')
-            ctx.decide(v is not None and valparam in derived(setter.node, v), 'R-SIB', 'D3', setter, v,
+            ctx.decide(v is not None and valparam in derived(setter.node, v) and
+                       (_on_all_paths(setter, f'self.{a}.accessmode') or
+                        _on_all_paths(setter, f'self.{a}._accessmode')), 'R-SIB', 'D3', setter, v,
                        f'sub-handle::{a}', f'{cname}.accessmode setter propagates to self.{a} ({sub})',
-                       detail=f'setter does not re-assign self.{a}.accessmode: the sub-handle keeps '
-                              f'its old mode after a mode switch')
+                       detail=f'setter does not re-assign self.{a}.accessmode on every path (missing, or '
+                              f'skipped by an early return): the sub-handle keeps its old mode after a '
+                              f'mode switch')
     ctx.floor('C11 D3 propagation obligations', n, 12)
+
+
+def _on_all_paths(func, target):
+    """An assignment to `target` lies on every normal path through func."""
+    cfg = cfg_of(func)
+    nodes = set()
+    for st in own_nodes(func.node):
+        if isinstance(st, ast.Assign) and any(dotted(t) == target for t in st.targets):
+            nodes.add(cfg.node_for(st))
+    return bool(nodes) and not cfg.can_reach(cfg.entry, cfg.exit, avoid=nodes, skip_labels=('exc',))
+
+
+def d6_requested_mode(ctx):
+    """'as requested at creation': a public function that takes accessmode and
+    returns/yields a handle built by a callee that also takes accessmode must
+    forward its own accessmode to that callee."""
+    n = 0
+    for f in ctx.repo.all_funcs():
+        if 'accessmode' not in f.params + f.kwonly or not f.is_public or f.is_setter:
+            continue
+        if f.module.name not in ('array', 'raggedarray', '__init__'):
+            continue
+        # expressions that flow to return / yield
+        outs = []
+        for x in own_nodes(f.node):
+            if isinstance(x, (ast.Return, ast.Yield)) and x.value is not None:
+                outs.append(x.value)
+        calls = []
+        for o in outs:
+            if isinstance(o, ast.Call):
+                calls.append(o)
+            elif isinstance(o, ast.Name):
+                from ..astutil import defs_of
+                ds = [v for v, st in defs_of(f.node, o.id) if isinstance(v, ast.Call)]
+                if ds:
+                    calls.append(ds[-1])
+        for c in calls:
+            tg = [t for k, t in ctx.R.resolve_call(c, f) if k == 'repo']
+            if not tg or 'accessmode' not in tg[0].params + tg[0].kwonly:
+                continue
+            if tg[0].is_ctxmgr and not f.is_generator:
+                continue
+            n += 1
+            a = get_arg(c, None, 'accessmode')
+            if a is None:
+                ps = [p for p in tg[0].params if p != 'self']
+                if 'accessmode' in ps and ps.index('accessmode') < len(c.args):
+                    a = c.args[ps.index('accessmode')]
+            ok = a is not None and 'accessmode' in derived(f.node, a)
+            ctx.decide(ok, 'R-FLOW', 'D6', f, c, f'requested-mode::{tg[0].qualname}',
+                       f'{f.qualname} hands its accessmode to {tg[0].qualname}, whose result it returns',
+                       detail=f'accessmode={norm(a) if a is not None else "<absent: callee default>"}: the '
+                              f'handle returned is not in the mode that was requested')
+    ctx.floor('C11 D6 handle-returning calls', n, 9)
 
 
 def d4_overrides(ctx):
